@@ -185,7 +185,7 @@ type c18BigWrite struct {
 }
 
 var c18BigStream = func() []byte {
-	out := make([]byte, 4100*188)
+	out := make([]byte, 4101*188) // one packet more than the longest slice: the "extra bytes" variants read behind it
 	x := uint64(0xD1B54A32D192ED03)
 	for i := range out {
 		x ^= x << 13
